@@ -19,6 +19,8 @@ pub struct Setting {
     pub instr: u8,     // 0 empty, 1 one name, 2 full registry
     pub bindings: u8,  // 0, 1, 5 names
     pub pnew: f32,
+    /// makes the bound names of different work items different (same table size)
+    pub salt: u32,
 }
 impl Setting {
     fn cache(&self) -> InstructionCache {
@@ -31,14 +33,14 @@ impl Setting {
     fn state(&self) -> StateSpec {
         let mut s = StateSpec::default();
         for i in 0..self.bindings {
-            s.bindings.insert(format!("bound{}", i), ItemSpec::Int(i as i32));
+            s.bindings.insert(format!("bound{}x{}", i, self.salt), ItemSpec::Int(i as i32));
         }
         s.config.new_erc_name_probability = self.pnew;
         s
     }
     fn to_json(&self) -> Value {
         let il = ["empty", "one name", "full registry"][self.instr as usize];
-        json!({"instruction_list": il, "bound_names": self.bindings, "new_erc_name_probability": fjson(self.pnew)})
+        json!({"instruction_list": il, "bound_names": self.bindings, "new_erc_name_probability": fjson(self.pnew), "salt": self.salt})
     }
     fn from_json(v: &Value) -> Option<Setting> {
         let il = v.get("instruction_list")?.as_str()?;
@@ -50,6 +52,7 @@ impl Setting {
             },
             bindings: v.get("bound_names")?.as_u64()? as u8,
             pnew: fparse(v.get("new_erc_name_probability")?)?,
+            salt: v.get("salt").and_then(|x| x.as_u64()).unwrap_or(0) as u32,
         })
     }
 }
@@ -91,7 +94,7 @@ fn check_leaves(t: &ItemSpec, set: &Setting, allowed: &[String], st: &mut LeafSt
             ItemSpec::Name(n) => {
                 st.leaves += 1;
                 *st.kinds.entry("name").or_insert(0) += 1;
-                let bound = (0..set.bindings).any(|i| *n == format!("bound{}", i));
+                let bound = (0..set.bindings).any(|i| *n == format!("bound{}x{}", i, set.salt));
                 let may_be_new = set.bindings == 0 || (set.pnew > 0.0 && (set.pnew * 10000.0) as u32 > 0);
                 if !bound && !may_be_new {
                     return Err(Fail::new("C12/leaf/name-not-bound", format!("name leaf {} although {} names are bound and the new-name probability is {}", n, set.bindings, set.pnew)));
@@ -144,7 +147,7 @@ fn settings() -> Vec<Setting> {
     for instr in 0..3u8 {
         for bindings in [0u8, 1, 5] {
             for pnew in [0.0f32, 0.001, 0.5, 1.0, f32::NAN] {
-                v.push(Setting { instr, bindings, pnew });
+                v.push(Setting { instr, bindings, pnew, salt: 0 });
             }
         }
     }
@@ -160,7 +163,7 @@ fn size_checks(ctx: &Ctx, draws: u64) -> SubReport {
     let stats: std::sync::Mutex<BTreeMap<usize, LeafStats>> = std::sync::Mutex::new(BTreeMap::new());
     let mut rep = par_map(ctx, "exact-size", work.len() as u64, |wi, rep| {
         let (si, n) = work[wi as usize];
-        let set = &sets[si];
+        let set = &Setting { salt: wi as u32, ..sets[si].clone() };
         let mut ls = LeafStats::default();
         let k = if n > 64 { 3 } else { per };
         for d in 0..k {
@@ -260,7 +263,7 @@ fn code_rand_checks(ctx: &Ctx, draws: u64) -> SubReport {
             s.code = vec![ItemSpec::name("bystander")];
             s.config.max_points_in_random_expressions = maxp;
             if d % 2 == 0 {
-                s.bindings.insert("bound0".into(), ItemSpec::Int(0));
+                s.bindings.insert(format!("bound0x{}", wi), ItemSpec::Int(0));
             }
             rep.evaluations += 1;
             let case = json!({"kind": "CODE.RAND", "operand": operand, "max_points_in_random_expressions": maxp, "state": s.to_json()});
@@ -338,7 +341,7 @@ pub fn run(ctx: &Ctx) -> PropReport {
         "INV on every single draw (the generator cannot be seeded): exact point count (Item::size and our own count), bound 1..m-1 and None below 2, CODE.RAND at most one item with points <= |operand| and <= |max points| and operand consumed, leaf kinds (instruction from the supplied list or NOOP, boolean, integer, float in [0,1), bound name unless a new one may be drawn), decomposition parts >= 1 summing to k; every first draw is also stepped (C01) and printed/parsed (C11); coverage assertion per setting with false-alarm probability < 1e-30.",
     );
     rep.assumptions.push("a name leaf may be new when nothing is bound or when the new-name probability times 10 000 is at least 1".into());
-    let d = ctx.tier.pick(400u64, 20_000u64);
+    let d = ctx.tier.pick(2000u64, 40_000u64);
     rep.push(size_checks(ctx, d));
     rep.push(bound_checks(ctx, d));
     rep.push(code_rand_checks(ctx, d));
